@@ -244,7 +244,7 @@ def _one_per_way(case: Case, out: list[str]) -> Optional[str]:
     """two callers of one way of an exclusive method never both execute in a cycle (checked after the counting clauses)"""
     if case.desc.get("callers") != 2:
         return None
-    for k, o in enumerate(out[1:]):
+    for k, o in enumerate(out[1:-1]):  # not in the last cycle: its effect on the registers is not observed yet
         f = _fields(o)
         for w, (x, y) in enumerate(zip(_opt_list(f["d"]), _opt_list(f["d2"]))):
             if x and y:
@@ -639,6 +639,7 @@ def run(ctx: Check):
     lockstep(ctx, "metrics(hwcounter,taggedcounter,hwexphistogram)", "C31", allc, impl, monitor, more_cases, nontrivial, procs=procs)
     for k, v in cases.items():
         ctx.count(f"configs_{k}", len({c.cfg for c in v}))
+    ctx.count("two_caller_cases", len(cases["multi"]))
     ctx.count("onehot_tag_sets", len({c.cfg for c in cases["tagged"] if not isinstance(_sim(c.desc), Exception) and _sim(c.desc).dut.one_hot}))
     ctx.count("hist_single_bucket_cases", sum(1 for c in cases["hist"] if c.desc["n"] == 1))
     ctx.note("HwExpHistogram(bucket_count=1) (former finding F4, repaired in /repo 0ffe71b) is generated and monitored like every "
